@@ -260,7 +260,40 @@ def run(prog, chk):
                     "%s(timeout) can return false on a path that is not the failure of %s (a timed wait must not fail before the timeout expired)" % (name, prim))
         if name == "Semaphore::wait":
             # EINTR is retried, not reported as a timeout
-            retry = any(re.search(r"\(\*__errno_location\(\) == 4\)|errno == 4", fin.key(f, b["cond"])) for b in f.blocks.values() if b.get("cond") is not None)
+            retry = False
+            defs_ = q.local_defs(f)
+
+            def is_errno(k, cnode):
+                if "__errno_location" in k:
+                    return True
+                for x in [f.strip(cnode)] + list(f.desc(cnode)):
+                    nx = f.nodes[x]
+                    if nx["k"] == "DeclRefExpr" and nx["ref"].get("dk") == "local" and nx["ref"]["n"] == k:
+                        init = q.single_def(f, nx["ref"]["id"], defs_)      # `const int error = errno;` taken right after the failed call
+                        if init is None or "__errno_location" not in f.r(init):
+                            continue
+                        ip = f.node_pos(init)
+                        # no other call between the failed primitive and the snapshot (it could overwrite errno)
+                        between = [c2 for c2 in q.calls(f) if c2 not in prims and f.nodes[c2].get("callee") != "__errno_location" and
+                                   f.node_pos(c2) is not None and any(q.reaches(f, p_, c2) for p_ in prims) and
+                                   f.find_path(f.node_pos(c2), {ip}, avoid=q.pos_of(f, prims)) is not None]
+                        if not between:
+                            return True
+                return False
+            for b in f.blocks.values():
+                c_ = b.get("cond")
+                if c_ is None or len(b["succ"]) != 2 or b.get("tk") == "SwitchStmt" or None in b["succ"]:
+                    continue
+                cn = fin._canon(f, c_, True)
+                if cn[0] == "val" or cn[1] not in ("==", "!=") or "4" not in (cn[0], cn[2]):
+                    continue
+                other = cn[2] if cn[0] == "4" else cn[0]
+                if not is_errno(q.no_casts(other), c_):
+                    continue
+                eq_edge = b["succ"][0] if cn[1] == "==" else b["succ"][1]
+                # from the EINTR edge the primitive is called again before the function can return
+                if prims and f.find_path((eq_edge, 0), {f.exit_pos()}, avoid=q.pos_of(f, prims), after_src=False) is None:
+                    retry = True
             if retry:
                 chk.ok("C11.e", f, "EINTR is retried", where, "errno == EINTR leads back to sem_timedwait", nontrivial=False)
             else:
